@@ -135,9 +135,11 @@ bitmat *bm_new (int rows, int cols)
 	m->rows = rows; m->cols = cols; m->W = (cols + 63) / 64;
 	if (m->W == 0) m->W = 1;
 	m->w = calloc ((size_t) (rows ? rows : 1) * m->W, sizeof (uint64_t));
+	m->sp_ptr = m->sp_col = m->sp_cptr = m->sp_row = NULL;
 	return m;
 }
-void bm_free (bitmat *m) { if (m) { free (m->w); free (m); } }
+void bm_drop_index (bitmat *m) { free (m->sp_ptr); free (m->sp_col); free (m->sp_cptr); free (m->sp_row); m->sp_ptr = m->sp_col = m->sp_cptr = m->sp_row = NULL; }
+void bm_free (bitmat *m) { if (m) { bm_drop_index (m); free (m->w); free (m); } }
 
 /* ------------------------------------------------------------------ RFC 5170 §6.2 */
 bitmat *rfc5170_H (int k, int n, int N1, uint64_t seed, int *extra_added)
@@ -197,7 +199,8 @@ bitmat *rfc5170_H (int k, int n, int N1, uint64_t seed, int *extra_added)
 }
 
 /* ------------------------------------------------------------------ GF(2) erasure algebra */
-void gf2_peel (const bitmat *H, uint64_t *known)
+/* the definition, word-parallel: repeat { every row with exactly one unknown entry makes it known } until nothing moves */
+static void gf2_peel_dense (const bitmat *H, uint64_t *known)
 {
 	int progress = 1, r, w;
 	while (progress) {
@@ -215,6 +218,77 @@ void gf2_peel (const bitmat *H, uint64_t *known)
 			if (cnt == 1) { known[pos >> 6] |= (uint64_t) 1 << (pos & 63); progress = 1; }
 		}
 	}
+}
+
+/* row and column lists of a bit matrix */
+void bm_build_index (bitmat *H)
+{
+	int r, j, c;
+	if (H->sp_ptr) return;
+	{
+		long nnz = 0; int w, *fill;
+		for (r = 0; r < H->rows; r++) for (w = 0; w < H->W; w++) nnz += __builtin_popcountll (bm_row (H, r)[w]);
+		H->sp_ptr = malloc (sizeof (int) * (size_t) (H->rows + 1));
+		H->sp_col = malloc (sizeof (int) * (size_t) (nnz ? nnz : 1));
+		H->sp_cptr = calloc ((size_t) (H->W * 64 + 2), sizeof (int));
+		H->sp_row = malloc (sizeof (int) * (size_t) (nnz ? nnz : 1));
+		nnz = 0;
+		for (r = 0; r < H->rows; r++) {
+			H->sp_ptr[r] = (int) nnz;
+			for (w = 0; w < H->W; w++) { uint64_t x = bm_row (H, r)[w]; while (x) { c = w * 64 + __builtin_ctzll (x); H->sp_col[nnz++] = c; H->sp_cptr[c + 1]++; x &= x - 1; } }
+		}
+		H->sp_ptr[H->rows] = (int) nnz;
+		for (c = 0; c < H->W * 64; c++) H->sp_cptr[c + 1] += H->sp_cptr[c];
+		fill = malloc (sizeof (int) * (size_t) (H->W * 64 + 1));
+		memcpy (fill, H->sp_cptr, sizeof (int) * (size_t) (H->W * 64 + 1));
+		for (r = 0; r < H->rows; r++) for (j = H->sp_ptr[r]; j < H->sp_ptr[r + 1]; j++) H->sp_row[fill[H->sp_col[j]]++] = r;
+		free (fill);
+	}
+}
+
+/* the same fixpoint with a work list over a row/column index, for matrices where dense passes per received symbol
+ * would cost minutes: count the unknown entries of every row; a row with exactly one makes it known, which lowers
+ * the count of every row of that column, and so on. The least fixpoint of a monotone rule does not depend on the
+ * order in which the rule is applied, so both versions compute the same set; gf2_peel_selfcheck() compares them. */
+static void gf2_peel_sparse (bitmat *H, uint64_t *known)
+{
+	int r, j, c, *cnt, *stack, sp = 0;
+	bm_build_index (H);
+	cnt = malloc (sizeof (int) * (size_t) (H->rows + 1));
+	stack = malloc (sizeof (int) * (size_t) (H->rows + 1));
+	for (r = 0; r < H->rows; r++) {
+		int n = 0;
+		for (j = H->sp_ptr[r]; j < H->sp_ptr[r + 1]; j++) { c = H->sp_col[j]; if (!((known[c >> 6] >> (c & 63)) & 1)) n++; }
+		cnt[r] = n;
+		if (n == 1) stack[sp++] = r;
+	}
+	while (sp > 0) {
+		r = stack[--sp];
+		if (cnt[r] != 1) continue;	/* resolved through another row meanwhile */
+		for (j = H->sp_ptr[r]; j < H->sp_ptr[r + 1]; j++) { c = H->sp_col[j]; if (!((known[c >> 6] >> (c & 63)) & 1)) break; }
+		known[c >> 6] |= (uint64_t) 1 << (c & 63);
+		for (j = H->sp_cptr[c]; j < H->sp_cptr[c + 1]; j++) { int q = H->sp_row[j]; if (--cnt[q] == 1) stack[sp++] = q; }
+	}
+	free (cnt); free (stack);
+}
+
+void gf2_peel (const bitmat *H, uint64_t *known)
+{
+	if ((long) H->rows * H->W > 8192) gf2_peel_sparse ((bitmat *) H, known);
+	else gf2_peel_dense (H, known);
+}
+
+/* both implementations on the same input; returns 0 when they agree */
+int gf2_peel_selfcheck (const bitmat *H, const uint64_t *known)
+{
+	size_t nb = sizeof (uint64_t) * (size_t) H->W;
+	uint64_t *a = malloc (nb), *b = malloc (nb);
+	int d;
+	memcpy (a, known, nb); memcpy (b, known, nb);
+	gf2_peel_dense (H, a); gf2_peel_sparse ((bitmat *) H, b);
+	d = memcmp (a, b, nb) != 0;
+	free (a); free (b);
+	return d;
 }
 
 static int rank_rows (uint64_t *M, int rows, int W, int cols)
